@@ -27,8 +27,10 @@ import (
 	"testing"
 )
 
+var verifDumpSeen = map[uintptr]bool{}
+
 func verifDumpValue(v reflect.Value, depth int) any {
-	if depth > 12 {
+	if depth > 40 {
 		return nil
 	}
 	if v.Kind() == reflect.Struct && v.Type().PkgPath() == "math/big" && v.Type().Name() == "Int" {
@@ -70,7 +72,13 @@ func verifDumpValue(v reflect.Value, depth int) any {
 		if v.IsNil() {
 			return nil
 		}
-		return map[string]any{"$ptr": verifDumpValue(v.Elem(), depth+1)}
+		if verifDumpSeen[v.Pointer()] {
+			return nil // cyclic / shared structure: the back reference is dropped
+		}
+		verifDumpSeen[v.Pointer()] = true
+		r := map[string]any{"$ptr": verifDumpValue(v.Elem(), depth+1)}
+		delete(verifDumpSeen, v.Pointer())
+		return r
 	case reflect.Interface:
 		if v.IsNil() {
 			return nil
@@ -88,7 +96,7 @@ func TestVerifDump(t *testing.T) {
 }
 `
 
-func dumpGlobals(h HarnessSpec, names []string) (map[string]any, error) {
+func dumpGlobals(h HarnessSpec, names []string, overlay map[string][]byte) (map[string]any, error) {
 	tmp, err := os.MkdirTemp("", "e1dump")
 	if err != nil {
 		return nil, err
@@ -123,6 +131,12 @@ func dumpGlobals(h HarnessSpec, names []string) (map[string]any, error) {
 		} else if pkgName == "" && clause != "" {
 			pkgName = strings.TrimPrefix(clause, "package ")
 		}
+	}
+	for p, src := range overlay {
+		f := filepath.Join(tmp, fmt.Sprintf("ov%d.go", k))
+		k++
+		os.WriteFile(f, src, 0o644)
+		ov[p] = f
 	}
 	var body strings.Builder
 	for _, n := range names {
